@@ -216,6 +216,10 @@ func runC12(c *Ctx) bool {
 		deep.WriteString(strings.Repeat(" ", d) + "- n\n")
 	}
 	big = append(big, deep.String())
+	if c.Race {
+		// race shards: the detector costs 5-15x; the size extremes stay with the plain shards
+		big = nil
+	}
 	for _, d := range big {
 		emit("size-extreme", d)
 	}
@@ -223,19 +227,34 @@ func runC12(c *Ctx) bool {
 		emit("stalling-reader", d)
 	}
 	nMut := c.Pick(5000, 200000)
+	if c.Race {
+		nMut = c.Pick(600, 12000)
+	}
 	for j := 0; j < nMut; j++ {
 		r := gen.New(c.Seed, 1201, uint64(j))
 		f := gen.RandForest(r, []int{4, 10, 30}[r.Intn(3)], r.Range(2, 8), allNameClasses, 15)
-		doc := gen.MutateDoc(r, gen.Spell(f, gen.RandSpelling(r)))
-		emit("mutated", doc)
+		doc := gen.Spell(f, gen.RandSpelling(r))
+		if c.Race && j%2 == 0 {
+			// under the race detector every second document stays as spelled, so that the calls get
+			// past the parser and all stages of the massive mode run with several roots in flight
+			emit("spelled", doc)
+			continue
+		}
+		emit("mutated", gen.MutateDoc(r, doc))
 	}
 	nRaw := c.Pick(3000, 100000)
+	if c.Race {
+		nRaw = c.Pick(200, 4000)
+	}
 	for j := 0; j < nRaw; j++ {
 		r := gen.New(c.Seed, 1202, uint64(j))
 		emit("raw", gen.RawBytes(r))
 	}
 	// programmatic trees with hostile names (incl. empty and LF)
 	nProg := c.Pick(600, 20000)
+	if c.Race {
+		nProg = c.Pick(100, 2000)
+	}
 	for j := 0; j < nProg; j++ {
 		i := idx
 		idx++
@@ -276,6 +295,9 @@ func evalC12(c *Ctx, cs *Case, lm *mon.LeakMonitor) {
 		}
 	}()
 	for ei, e := range c12Entries() {
+		if c.Race && !e.massive {
+			continue // one call at a time in one goroutine: nothing for the detector to see
+		}
 		if heavy && ei%3 != cs.Idx%3 && !strings.Contains(e.name, "[text]") {
 			continue
 		}
